@@ -420,6 +420,64 @@ def rule_r5(ctx) -> List[R.Inst]:
     return insts
 
 
+def rule_r6(ctx) -> List[R.Inst]:
+    """the type filter is `issubclass`: the tags the pattern assigns must be unrelated classes"""
+    M = ctx.M
+    rid = "C20.R6"
+    insts = []
+    fn = M.fn(PATTERN + ".from_note_lists")
+    file = M.mods[fn.mod].rel
+    # how the type filter compares
+    flt = M.fn(FILTERS + ".PtnFilterType.filter")
+    cmpf = sorted({call_name(n) for n in ast.walk(flt.node) if isinstance(n, ast.Call) and call_name(n) in ("issubclass", "isinstance")})
+    eqs = [n for n in ast.walk(flt.node) if isinstance(n, ast.Compare) and isinstance(n.ops[0], (ast.Eq, ast.Is)) and
+           any(isinstance(x, ast.Name) and x.id == "cls" for x in ast.walk(n))]
+    if not cmpf and not eqs:
+        return [R.undec(rid, "filter-compare", M.mods[flt.mod].rel, flt.node.lineno, "how the type filter compares a tag with a class was not recognised")]
+    insts.append(R.ok(rid, "filter-compare", M.mods[flt.mod].rel, flt.node.lineno, idiom=(cmpf or ["=="])[0]))
+    guards = [n for n in walk_no_nested(fn.node) if isinstance(n, ast.If) and any(
+        isinstance(c, ast.Call) and call_name(c) == "issubclass" for c in ast.walk(n.test))]
+    if len(guards) != 1:
+        return insts + [R.undec(rid, "tail-tag", file, fn.node.lineno, "the hold guard of from_note_lists was not found")]
+    g = guards[0]
+    ic = [c for c in ast.walk(g.test) if isinstance(c, ast.Call) and call_name(c) == "issubclass"][0]
+    gcls = M.resolve_expr(fn.mod, ic.args[1]) if len(ic.args) == 2 else None
+    tags = []
+    for n in ast.walk(ast.Module(body=g.body, type_ignores=[])):
+        if isinstance(n, ast.Call) and call_name(n) in ("extend", "append") and isinstance(n.func, ast.Attribute) and \
+                isinstance(n.func.value, ast.Name) and n.func.value.id == "types" and n.args:
+            for x in ast.walk(n.args[0]):
+                if isinstance(x, ast.Name):
+                    r = M.resolve_expr(fn.mod, x)
+                    if r and r[0] == "class":
+                        tags.append((r[1] if isinstance(r[1], str) else getattr(r[1], "qual", None), n))
+    if not gcls or gcls[0] != "class" or len(tags) != 1:
+        return insts + [R.undec(rid, "tail-tag", file, g.lineno, f"guard class / tail tag not resolved ({gcls}, {len(tags)} tags)")]
+    hold = gcls[1] if isinstance(gcls[1], str) else gcls[1].qual
+    tail, node = tags[0]
+    if not cmpf:  # exact comparison: any distinct classes do
+        return insts + [R.ok(rid, "tail-tag", file, node.lineno, idiom=f"{tail.split('.')[-1]} compared exactly")]
+    note_roots = [c for c in M.bases(hold) if c in M.classes]
+    siblings = sorted({c for r in note_roots for c in M.subclasses(r) if c != r and r in M.bases(c)} | {hold})
+    rel = []
+    for other in siblings:
+        if other == tail:
+            continue
+        if other in M.mro(tail):
+            rel.append(f"{tail.split('.')[-1]} is a subclass of {other.split('.')[-1]}")
+        for sub in M.subclasses(other):
+            if tail in M.mro(sub) and sub != tail:
+                rel.append(f"{sub.split('.')[-1]} is a subclass of {tail.split('.')[-1]}")
+    if rel:
+        insts.append(R.viol(rid, "tail-tag", file, node.lineno,
+                            f"the type filter matches with issubclass, and {rel[0]}: a filter naming the one also matches "
+                            f"(or excludes) the sequences of the other", construct="; ".join(sorted(set(rel)))[:200]))
+    else:
+        insts.append(R.ok(rid, "tail-tag", file, node.lineno,
+                          idiom=f"{tail.split('.')[-1]} unrelated to {[c.split('.')[-1] for c in siblings if c != tail]}"))
+    return insts
+
+
 def rule_dep(ctx):
     """obligations inherited from shared code reached through the call graph (sa/props/deps.py)"""
     from .deps import dep_insts
@@ -432,6 +490,7 @@ SPECS = [
     RuleSpec("C20.R3", rule_r3, 5, "A7", "chunks are consecutive groups of exactly `size`; full cartesian product; filters on their own fields"),
     RuleSpec("C20.R5", rule_r5, 5, "A7", "REPEAT option: shift range computed per base combo"),
     RuleSpec("C20.R4", rule_r4, 7, "A7", "chord filter tests row membership; exclude = negation; option flags distinct bits"),
+    RuleSpec("C20.R6", rule_r6, 2, "M0", "the type filter is issubclass, so the tags assigned by the pattern (note classes, HoldTail) are unrelated classes"),
     RuleSpec("C20.D", rule_dep, 1, "M0", "rules of the shared code (timing engine, list classes, stacker) that the operations of this property reach"),
 ]
 
